@@ -574,6 +574,142 @@ Proof.
   - rewrite H1, H2. cbn [snd]. split; [reflexivity|]. unfold e_dial. discriminate.
 Qed.
 
+(* ---------- whatever the stream: cookies, server and port come from the bytes received ---------- *)
+
+Definition infix (x S : bytes) : Prop := exists pre post, S = pre ++ x ++ post.
+
+Lemma prefix_b_app x post : prefix_b x (x ++ post) = true.
+Proof. induction x as [|a x IH]; [reflexivity|]. cbn. rewrite Z.eqb_refl. exact IH. Qed.
+
+Lemma infix_b_complete x S : infix x S -> infix_b x S = true.
+Proof.
+  intros [pre [post E]]. subst S. induction pre as [|a pre IH].
+  - cbn [app]. destruct (x ++ post) eqn:E; cbn [infix_b]; rewrite <- ?E, prefix_b_app; reflexivity.
+  - cbn [app infix_b]. rewrite IH. apply orb_true_r.
+Qed.
+
+Lemma port_in_complete a b S : infix [a; b] S -> port_in (a * 256 + b) S = true.
+Proof.
+  intros [pre [post E]]. subst S. induction pre as [|c pre IH].
+  - cbn. rewrite Z.eqb_refl. reflexivity.
+  - cbn [app] in *. cbn [port_in]. destruct (pre ++ a :: b :: post) eqn:E.
+    + destruct pre; discriminate E.
+    + rewrite IH. apply orb_true_r.
+Qed.
+
+Definition from_stream (S : bytes) (d0 d : kdata) : Prop :=
+  (forall c, In c (k_cookies d) -> In c (k_cookies d0) \/ infix c S) /\
+  (k_server d = k_server d0 \/ infix (k_server d) S) /\
+  (k_port d = k_port d0 \/ exists a b, infix [a; b] S /\ k_port d = a * 256 + b).
+
+Lemma from_stream_refl S d : from_stream S d d.
+Proof. split; [intros c H; left; exact H|split; left; reflexivity]. Qed.
+
+Lemma infix_mid pre h x r : infix x (pre ++ h ++ x ++ r).
+Proof. exists (pre ++ h), r. rewrite <- app_assoc. reflexivity. Qed.
+
+Lemma be16_two (v : bytes) : length v = 2%nat -> exists a b, v = [a; b] /\ be16 v = a * 256 + b.
+Proof.
+  destruct v as [|a [|b [|c v]]]; cbn; intro H; try discriminate. exists a, b. split; reflexivity.
+Qed.
+
+(* one iteration: the reader advances within S and the data keep coming from S *)
+Lemma rd_step_from_stream S d0 pre s d :
+  S = pre ++ s -> from_stream S d0 d ->
+  match rd_step bytes take io_err s d with
+  | Stop d' _ => d' = d
+  | Next s' d' => (exists pre', S = pre' ++ s') /\ from_stream S d0 d'
+  end.
+Proof.
+  intros ES [Hc [Hs Hp]]. unfold rd_step.
+  destruct (take 4 s) as [[h s1]|] eqn:T; [|reflexivity].
+  apply take_some in T as [Es _]. subst s.
+  assert (Hsame : forall s2 b, s1 = b ++ s2 -> exists pre', S = pre' ++ s2).
+  { intros s2 b E. exists (pre ++ h ++ b). subst s1. rewrite ES, <- !app_assoc. reflexivity. }
+  repeat match goal with
+  | |- match (if ?c then _ else _) with _ => _ end => destruct c
+  | |- match (match take ?n ?x with _ => _ end) with _ => _ end =>
+      let T2 := fresh "T" in destruct (take n x) as [[? ?]|] eqn:T2; [apply take_some in T2 as [? ?]|]
+  end; try reflexivity.
+  - (* next protocol *) split; [eapply Hsame; eassumption|]. split; [exact Hc|split; assumption].
+  - (* algorithm *) split; [eapply Hsame; eassumption|]. split; [exact Hc|split; assumption].
+  - (* cookie *) split; [eapply Hsame; eassumption|]. subst s1. split; [|split; assumption].
+    intros c Hin. cbn [k_cookies set_cookies] in Hin. apply in_app_or in Hin as [Hin|[Hin|[]]].
+    + apply Hc. exact Hin.
+    + subst c. right. rewrite ES. apply infix_mid.
+  - (* server *) split; [eapply Hsame; eassumption|]. subst s1. split; [exact Hc|]. split; [|exact Hp].
+    right. cbn [k_server set_server]. rewrite ES. apply infix_mid.
+  - (* port *) split; [eapply Hsame; eassumption|]. subst s1. split; [exact Hc|]. split; [exact Hs|].
+    right. cbn [k_port set_port].
+    match goal with Hl : length ?v = 2%nat |- _ =>
+      let x := fresh "x" in let y := fresh "y" in let Ev := fresh "Ev" in let Eb := fresh "Eb" in
+      destruct (be16_two v Hl) as [x [y [Ev Eb]]]; subst v; exists x, y; split; [rewrite ES; apply infix_mid|exact Eb] end.
+  - (* unrecognised, not critical *) split; [eapply Hsame; eassumption|]. split; [exact Hc|split; assumption].
+Qed.
+
+Lemma rd_loop_from_stream S d0 fuel : forall pre s d,
+  S = pre ++ s -> from_stream S d0 d -> from_stream S d0 (fst (rd_loop bytes take io_err fuel s d)).
+Proof.
+  induction fuel as [|fuel IH]; intros pre s d ES Hf; [exact Hf|]. cbn [rd_loop].
+  pose proof (rd_step_from_stream S d0 pre s d ES Hf) as H.
+  destruct (rd_step bytes take io_err s d) as [d' e|s' d'].
+  - subst d'. exact Hf.
+  - destruct H as [[pre' ES'] Hf']. exact (IH pre' s' d' ES' Hf').
+Qed.
+
+Lemma read_stream_from S d0 : from_stream S d0 (fst (read_stream S d0)).
+Proof. unfold read_stream. apply (rd_loop_from_stream S d0 _ [] S d0 eq_refl (from_stream_refl S d0)). Qed.
+
+(* a successful exchange of either transport: every cookie of the pool, a server other than the
+   key-exchange host and a port other than the standard one occur in the bytes the peer sent *)
+Lemma exchange_from_stream_of quic ex st p d : exchange_keys_of quic ex st p = (d, 0) ->
+  (forall c, In c (k_cookies d) -> infix c (p_stream p)) /\
+  (k_server d = p_host p \/ infix (k_server d) (p_stream p)) /\
+  (k_port d = std_ntp_port quic \/ exists a b, infix [a; b] (p_stream p) /\ k_port d = a * 256 + b).
+Proof.
+  assert (G : forall d0, k_cookies d0 = [] -> k_server d0 = p_host p -> k_port d0 = std_ntp_port quic ->
+    forall d1, from_stream (p_stream p) d0 d1 ->
+    forall c2s s2c, let d2 := set_c2s (set_s2c d1 s2c) c2s in
+    (forall c, In c (k_cookies d2) -> infix c (p_stream p)) /\
+    (k_server d2 = p_host p \/ infix (k_server d2) (p_stream p)) /\
+    (k_port d2 = std_ntp_port quic \/ exists a b, infix [a; b] (p_stream p) /\ k_port d2 = a * 256 + b)).
+  { intros d0 E1 E2 E3 d1 [Hc [Hs Hp]] c2s s2c d2. subst d2. cbn [k_cookies k_server k_port set_c2s set_s2c].
+    rewrite E1 in Hc. rewrite E2 in Hs. rewrite E3 in Hp.
+    split; [intros c Hin; destruct (Hc c Hin) as [[]|H]; exact H|split; assumption]. }
+  destruct quic; cbn [exchange_keys_of].
+  - unfold exchange_keys_quic, dial_quic. destruct (p_up p); [|bad_pair].
+    destruct (quic_negotiate [alpn_ntske] (p_alpn p)) as [|proto]; [bad_pair|].
+    cbn [Z.eqb negb].
+    pose proof (read_stream_from (p_stream p) (set_port (set_server kzero (p_host p)) ntp_port_scion)) as Hf.
+    destruct (read_stream (p_stream p) _) as [d1 e1]. cbn [fst] in Hf.
+    destruct (e1 =? 0) eqn:Ee1; cbn [negb]; [|intro H; inversion H; subst; discriminate Ee1].
+    unfold export_keys.
+    destruct (ex exporter_label ctx_s2c key_len) as [s2c|]; [|bad_pair].
+    destruct (ex exporter_label ctx_c2s key_len) as [c2s|]; [|bad_pair].
+    cbn [Z.eqb negb].
+    destruct (k_cookies (set_c2s (set_s2c d1 s2c) c2s)) as [|c cs] eqn:Ek; [bad_pair|].
+    destruct (existsb cookie_too_long (c :: cs)); [bad_pair|].
+    destruct (k_algo (set_c2s (set_s2c d1 s2c) c2s) =? aes_siv_cmac_256); cbn [negb]; [|bad_pair].
+    intro H. inversion H; subst.
+    exact (G (set_port (set_server kzero (p_host p)) ntp_port_scion) eq_refl eq_refl eq_refl d1 Hf c2s s2c).
+  - unfold exchange_keys, dial_tls. destruct (p_up p); [|bad_pair].
+    destruct (tls_negotiate [alpn_ntske] (p_alpn p)) as [|proto]; [bad_pair|].
+    destruct (bytes_eqb proto alpn_ntske); [|bad_pair].
+    cbn [Z.eqb negb].
+    pose proof (read_stream_from (p_stream p) (set_port (set_server kzero (p_host p)) ntp_port_ip)) as Hf.
+    destruct (read_stream (p_stream p) _) as [d1 e1]. cbn [fst] in Hf.
+    destruct (e1 =? 0) eqn:Ee1; cbn [negb]; [|intro H; inversion H; subst; discriminate Ee1].
+    unfold export_keys.
+    destruct (ex exporter_label ctx_s2c key_len) as [s2c|]; [|bad_pair].
+    destruct (ex exporter_label ctx_c2s key_len) as [c2s|]; [|bad_pair].
+    cbn [Z.eqb negb].
+    destruct (k_cookies (set_c2s (set_s2c d1 s2c) c2s)) as [|c cs] eqn:Ek; [bad_pair|].
+    destruct (existsb cookie_too_long (c :: cs)); [bad_pair|].
+    destruct (k_algo (set_c2s (set_s2c d1 s2c) c2s) =? aes_siv_cmac_256); cbn [negb]; [|bad_pair].
+    intro H. inversion H; subst.
+    exact (G (set_port (set_server kzero (p_host p)) ntp_port_ip) eq_refl eq_refl eq_refl d1 Hf c2s s2c).
+Qed.
+
 (* ---------- the oracle accepts every history of the model ---------- *)
 
 Definition Rel (st : kdata) (ost : ostate) : Prop :=
@@ -612,6 +748,16 @@ Proof.
     + apply Z.eqb_eq in He. subst e.
       destruct (exchange_success_facts_of quic ex st _ d Hx) as [Hup [[proto [Hneg Hproto]] [Hcne [Halgo [Hc2s [Hs2c Hfits]]]]]].
       cbn [p_up peer_of_script] in Hup. cbn [p_alpn peer_of_script] in Hneg.
+      destruct (exchange_from_stream_of quic ex st _ d Hx) as [Fc [Fs Fp]].
+      change (p_stream (peer_of_script sc)) with (sent_bytes sc) in Fc, Fs, Fp.
+      change (p_host (peer_of_script sc)) with (sc_host sc) in Fs.
+      assert (B1 : forallb (fun c => infix_b c (sent_bytes sc)) (k_cookies d) = true).
+      { apply forallb_forall. intros c Hin. apply infix_b_complete. exact (Fc c Hin). }
+      assert (B2 : bytes_eqb (k_server d) (sc_host sc) || infix_b (k_server d) (sent_bytes sc) = true).
+      { destruct Fs as [E|I]; [rewrite E, bytes_eqb_refl; reflexivity|rewrite (infix_b_complete _ _ I); apply orb_true_r]. }
+      assert (B3 : (k_port d =? std_ntp_port quic) || port_in (k_port d) (sent_bytes sc) = true).
+      { destruct Fp as [E|[a [b [I E]]]]; [rewrite E, Z.eqb_refl; reflexivity|rewrite E, (port_in_complete _ _ _ I); apply orb_true_r]. }
+      clear Fc Fs Fp.
       assert (Hm1 : (sc_mode sc =? 1) = false).
       { apply Z.eqb_eq in Hup. rewrite Hup. reflexivity. }
       cbn [fo_exchanged fo_err fo_data andb snd fst]. rewrite Hm1. cbn [negb].
@@ -635,7 +781,8 @@ Proof.
            eexists. split; [reflexivity|]. right. cbn. split; [reflexivity|]. split; [reflexivity|].
            intros _. repeat split; try reflexivity. exact Halgo.
         -- rewrite Hx in Hstr. cbn in Hstr. congruence.
-      * cbn [andb]. eexists. split; [reflexivity|]. right. cbn. split; [reflexivity|]. split; [reflexivity|].
+      * rewrite B1, B2, B3.
+        cbn [andb]. eexists. split; [reflexivity|]. right. cbn. split; [reflexivity|]. split; [reflexivity|].
         intros _. repeat split; try reflexivity. exact Halgo.
     + (* the exchange failed *)
       cbn [fo_exchanged fo_err fo_data andb snd fst].
